@@ -82,12 +82,21 @@ CHECKS = {
        "hooks, COMMIT ok/conflict). ORACLE 2 (Go, DDL schedules): 2..4 interleaved sessions over a changing schema (CREATE/DROP TABLE, ADD/DROP/RENAME COLUMN, RENAME TO, "
        "CREATE/DROP INDEX mixed with DML; open EMPTY / query-only / writing transactions of other sessions at every DDL commit; fresh engines and re-opens; observers that do "
        "not touch the cache): after EVERY commit/rollback/abort/re-open a fresh session's TABLES()/COLUMNS()/INDEXES()/rows = reference to which committed transactions are "
-       "applied in commit order.",
+       "applied in commit order. "
+       "Third model Sql/CatalogClone.lean (added for seeded change c13-b; heap of per-table containers, cloneTable rebuilds or shares each, DDL = in-place mutation through "
+       "the transaction's clone): clone_facts_match_code + clone_rebuilds_every_container (extracted: every map/slice field of Table and of the Index objects is rebuilt "
+       "by cloneTable), uncommitted_ddl_leaves_cached_catalog_untouched (any DDL sequence of an open / rolled-back transaction changes neither what the cached catalog "
+       "shows nor what a later transaction's clone shows), witness shared_container_leaks_uncommitted_ddl. ORACLE 2 widened (c13_ddlx.go): every DDL kind of the grammar "
+       "that works on one engine (incl. NOT NULL / CHECK in CREATE TABLE, DROP CONSTRAINT, ALTER COLUMN SET|DROP NOT NULL, TRUNCATE, views, sequences) x every ending "
+       "(COMMIT, ROLLBACK, failing statement, conflict at COMMIT, closed session, ROLLBACK TO SAVEPOINT) x warm/cold catalog cache (matrix + random schedules), constraint-"
+       "violating DML, and after every event BEHAVIOUR PROBES by a fresh session of the same engine and of a second engine over the same store: valid row accepted, row "
+       "violating each CHECK / omitting each NOT NULL column refused, row violating a dropped constraint accepted, every view/sequence of the reference resolves and no other.",
   note=TB + " Modelled rather than verified: isolation between concurrent sessions is the store's MVCC (C05) and is only exercised by the harness (the catalog-cache model takes "
        "'a writer whose catalog read-set is stale fails with a read conflict' as given); NewTx is one step of the cache model (the two critical sections of the read-only fill are "
        "the subject of ro_fill_not_atomic_stale, not driven by the harness); the correspondence runs "
        "single-session programs on tables without secondary indexes (the in-tx index view is finding R1); pkg/server/sessions/internal/transactions is a Go internal package "
-       "(not importable) and the PostgreSQL wire front-end is not driven. Known signatures for root causes R1, R2, R4, R5 (K1), R6, R7, R8, R9, R14–R17 (known_findings.json).",
+       "(not importable) and the PostgreSQL wire front-end is not driven. the clone model covers the containers of Table (the scalar fields of the Column / Index objects are copied by value: literal facts). "
+       "Known signatures for root causes R1, R2, R4, R5 (K1), R6/R6b/R6c, R7, R8, R9, R14–R23 (known_findings.json).",
   technique="Lean 4 proof (case analysis on the transaction interpreter, simulation against the reference interpreter, concrete witnesses by decide) + differential correspondence + reference-interpreter oracle",
   design="7/C13"),
  "C12": dict(
